@@ -74,3 +74,8 @@ PROPS = {
         "assumptions": ["array storage modelled as an immutable List; pointer aliasing exhibited only by the ASan+UBSan harness run"],
     },
 }
+
+# per-property entries contributed as snippets (tools/props.d/Cxx.py): executed with PROPS, LEVEL_TEXT, NOT_CLAIMED, TB_COMMON in scope
+import glob as _glob, os as _os
+for _f in sorted(_glob.glob(_os.path.join(_os.path.dirname(_os.path.abspath(__file__)), "props.d", "*.py"))):
+    exec(compile(open(_f).read(), _f, "exec"))
